@@ -3,7 +3,7 @@ from typing import Any, Dict, List, Tuple
 
 from vfw.build import RT, get_built, invoke, identify
 from vfw.hlib import Tag, fresh, note, conc
-from vfw.hspec import B, H, I
+from vfw.hspec import B, H, I, bind
 from vfw.prog import ASYNC_KINDS, ALL_KINDS, INV_AROUND, CTOR_KINDS, Level, Prog, effective, expect
 
 RESULT = object()
@@ -94,15 +94,12 @@ def run_pre(kind: str, is_async: bool, mode: str, n0: int, d1: int, n1: int, sur
     return ok, witness
 
 
-def _mk(kind: str, is_async: bool, mode: str):  # type: ignore
-    def fn(**kw: Any) -> Tuple[bool, bool]:
-        kw.setdefault("d1", 0)
-        kw.setdefault("n1", 0)
-        kw.setdefault("t3", True)
-        kw.setdefault("t4", True)
-        return run_pre(kind, is_async, mode, **kw)
+ALL = ["n0", "d1", "n1", "surround", "r", "t0", "t1", "t2", "t3", "t4", "x", "thr"]
 
-    return fn
+
+def _mk(kind: str, is_async: bool, mode: str, params: List[Any]):  # type: ignore
+    defaults = {"d1": 0, "n1": 0, "t3": True, "t4": True}
+    return bind(run_pre, (kind, is_async, mode), ALL, defaults, [p.name for p in params])
 
 
 def harnesses(tier: str) -> List[H]:
@@ -128,7 +125,7 @@ def harnesses(tier: str) -> List[H]:
                         truth3 + [B("t3")] + ([B("t4")] if tier == "thorough" else []) + \
                         [I("x", -4, 12), I("thr", -4, 12)]
                     size = (n0hi + 1) * 3 * 3 * 4 * 3
-                out.append(H(name, _mk(kind, is_async, mode), params, tiers=(tier,), timeout=240,
+                out.append(H(name, _mk(kind, is_async, mode, params), params, tiers=(tier,), timeout=240,
                              family="kind={} async={} error={}; own stack 0..{}, optional subclass level "
                                     "(absent / not overriding / overriding with 0..2 own), surround in "
                                     "{{none, post, post+snapshot, invariant}}, truth rendering in "
